@@ -267,3 +267,29 @@ func RunNative(harnesses map[string]func()) error {
 	}
 	return nil
 }
+
+// Drain returns the payloads queued on a memberlist.TransmitLimitedQueue since the last call
+// (engine: FIFO model; natively the real queue is drained).
+func Drain(q interface{}) [][]byte {
+	g, ok := q.(interface {
+		GetBroadcasts(overhead, limit int) [][]byte
+	})
+	if !ok {
+		panic("zzsymxrt.Drain: not a broadcast queue")
+	}
+	var out [][]byte
+	seen := map[string]bool{}
+	for k := 0; k < 64; k++ {
+		bs := g.GetBroadcasts(0, 1<<24)
+		if len(bs) == 0 {
+			break
+		}
+		for _, b := range bs {
+			if !seen[string(b)] {
+				seen[string(b)] = true
+				out = append(out, b)
+			}
+		}
+	}
+	return out
+}
